@@ -201,21 +201,25 @@ Fixpoint poll_until (fuel : nat) (locked : nat -> Z) (k : nat) : option nat :=
   end.
 
 (* ---- correspondence: replay of an observed forced-schedule trace ------------------------- *)
-(* What the harness records, in the order of the (serialised) execution:
+(* What the harness records.  Events marked (L) are logged while the vigil's mutex is held, so
+   their order in the log is the order of the critical sections; the others are logged by a
+   thread that the harness has just released while every other thread is parked, blocked or
+   asleep (the harness waits for quiescence after every release).
      OBegin c        BeginVigil of operation c returned
-     OGap c v        operation c is parked at hook vigil.cease.gap (decrement done), counter read v
+     ODec c v    (L) operation c decremented the counter to v (hook vigil.cease.dec)
+     OGap c          operation c is parked at hook vigil.cease.gap (unlocked, before Broadcast)
      OBcast c        operation c was resumed from that hook (its next action is the Broadcast)
      OCeased c       CeaseVigil of operation c returned (may be logged after the events of a
                      waiter woken by the broadcast, hence the separate OBcast)
-     OCheck w v      waiter w is at hook vigil.wait.check, counter read v
+     OCheck w v  (L) waiter w is parked at hook vigil.wait.check having read v (> 0)
+     OWait w         waiter w was resumed from that hook (next: ticket, unlock, sleep)
      OReturn w       WaitForActiveVigilsClosed of waiter w returned
-   Steps without a hook (lock, unlock, ticket, sleep, wake) are silent: the replay advances the
-   named thread up to the observed point, and when it is blocked on the mutex it first lets the
-   holder run its silent steps up to the unlock.  Between two events the model threads rest
-   only at W0, W2, W3, WDone and CIdle, C0, C3, CDone. *)
+   Steps without an event (lock, unlock, ticket, sleep, wake) are silent: the replay advances
+   the named thread up to the observed point; when it needs the mutex and an operation that has
+   decremented (C2) still holds it in the model, that operation's unlock is performed first. *)
 Inductive obs :=
-| OBegin (c : nat) | OGap (c : nat) (v : Z) | OBcast (c : nat) | OCeased (c : nat)
-| OCheck (w : nat) (v : Z) | OReturn (w : nat).
+| OBegin (c : nat) | ODec (c : nat) (v : Z) | OGap (c : nat) | OBcast (c : nat) | OCeased (c : nat)
+| OCheck (w : nat) (v : Z) | OWait (w : nat) | OReturn (w : nat).
 
 Definition w_holds (w : wpc) : bool :=
   match w with W1 | W2 | W2b _ | W5 => true | _ => false end.
@@ -227,26 +231,16 @@ Fixpoint find_idx {A} (p : A -> bool) (l : list A) (i : nat) : option nat :=
   | x :: t => if p x then Some i else find_idx p t (S i)
   end.
 
-(* silent steps by which the current holder of the mutex gets to release it: a waiter at
-   W2/W2b (resumed from the hook, inside Wait), a ceaser at C1/C2. *)
-Definition w_silent_holder (w : wpc) : bool :=
-  match w with W2 | W2b _ => true | _ => false end.
+Definition is_C2 (c : cpc) := match c with C2 => true | _ => false end.
 
-Fixpoint release_mu (fuel : nat) (s : st) : st :=
-  match fuel with
-  | O => s
-  | S f =>
-      if mu (shd s) then
-        match find_idx w_silent_holder (ws s) 0 with
-        | Some i => match step true s (TW i) with Some s' => release_mu f s' | None => s end
-        | None =>
-            match find_idx c_holds (cs s) 0 with
-            | Some i => match step true s (TC i) with Some s' => release_mu f s' | None => s end
-            | None => s
-            end
-        end
-      else s
-  end.
+(* the silent unlock of an operation that has decremented *)
+Definition release_mu (s : st) : st :=
+  if mu (shd s) then
+    match find_idx is_C2 (cs s) 0 with
+    | Some i => match step true s (TC i) with Some s' => s' | None => s end
+    | None => s
+    end
+  else s.
 
 Definition wpc_at (s : st) (i : nat) : wpc := nth i (ws s) WDone.
 Definition cpc_at (s : st) (i : nat) : cpc := nth i (cs s) CDone.
@@ -260,7 +254,7 @@ Fixpoint advance (fuel : nat) (s : st) (t : tid) (stop : st -> bool) : option st
       if stop s then Some s
       else match step true s t with
            | Some s' => advance f s' t stop
-           | None => let s1 := release_mu 8 s in
+           | None => let s1 := release_mu s in
                      match step true s1 t with
                      | Some s' => advance f s' t stop
                      | None => None
@@ -269,9 +263,7 @@ Fixpoint advance (fuel : nat) (s : st) (t : tid) (stop : st -> bool) : option st
   end.
 
 Definition is_W2 (w : wpc) := match w with W2 => true | _ => false end.
-Definition is_C0 (c : cpc) := match c with C0 => true | _ => false end.
-Definition is_C3 (c : cpc) := match c with C3 => true | _ => false end.
-Definition is_CDone (c : cpc) := match c with CDone => true | _ => false end.
+Definition is_W3 (w : wpc) := match w with W3 _ => true | _ => false end.
 
 Definition replay_one (s : st) (o : obs) : option st :=
   match o with
@@ -279,14 +271,18 @@ Definition replay_one (s : st) (o : obs) : option st :=
                 | CIdle => step true s (TC c)
                 | _ => None
                 end
-  | OGap c v => match cpc_at s c with
-                | C0 | C1 | C2 =>
-                    match advance 8 s (TC c) (fun s' => is_C3 (cpc_at s' c)) with
-                    | Some s' => if Z.eqb (cnt (shd s')) v then Some s' else None
-                    | None => None
-                    end
+  | ODec c v => match cpc_at s c with
+                | C0 => match advance 4 s (TC c) (fun s' => is_C2 (cpc_at s' c)) with
+                        | Some s' => if Z.eqb (cnt (shd s')) v then Some s' else None
+                        | None => None
+                        end
                 | _ => None
                 end
+  | OGap c => match cpc_at s c with
+              | C2 => step true s (TC c)
+              | C3 => Some s               (* its unlock was already needed by another thread *)
+              | _ => None
+              end
   | OBcast c => match cpc_at s c with
                 | C3 => step true s (TC c)
                 | _ => None
@@ -296,25 +292,20 @@ Definition replay_one (s : st) (o : obs) : option st :=
                  | _ => None
                  end
   | OCheck w v =>
-      (* at least one step: a waiter that is already at W2 must go round the loop again *)
       match wpc_at s w with
-      | WDone => None
-      | W2 =>
-          match advance 8 s (TW w) (fun s' => negb (is_W2 (wpc_at s' w))) with
-          | Some s1 => match advance 12 s1 (TW w) (fun s' => is_W2 (wpc_at s' w)) with
-                       | Some s' => if Z.eqb (cnt (shd s')) v then Some s' else None
-                       | None => None
-                       end
-          | None => None
-          end
-      | _ => match advance 12 s (TW w) (fun s' => is_W2 (wpc_at s' w)) with
-             | Some s' => if Z.eqb (cnt (shd s')) v then Some s' else None
-             | None => None
-             end
+      | W0 | W3 _ => match advance 6 s (TW w) (fun s' => is_W2 (wpc_at s' w)) with
+                     | Some s' => if Z.eqb (cnt (shd s')) v then Some s' else None
+                     | None => None
+                     end
+      | _ => None
       end
+  | OWait w => match wpc_at s w with
+               | W2 => advance 4 s (TW w) (fun s' => is_W3 (wpc_at s' w))
+               | _ => None
+               end
   | OReturn w => match wpc_at s w with
-                 | WDone => None
-                 | _ => advance 12 s (TW w) (fun s' => w_done (wpc_at s' w))
+                 | W0 | W3 _ => advance 8 s (TW w) (fun s' => w_done (wpc_at s' w))
+                 | _ => None
                  end
   end.
 
